@@ -5,7 +5,7 @@ from mp4gen import *
 
 ID = "C10"
 AREA = "mp4f"
-AREAS = ["mp4f", "webp"]
+AREAS = ["mp4f", "webp", "huff"]
 COQ_TARGETS = ["theories/Props/C10.vo", "theories/Props/C10w.vo", "theories/Mp4/SanB.vo"]
 REQUIRES = ["From Coq Require Import List NArith ZArith Bool.", "From Coq.Strings Require Import Byte.",
             "From MS Require Import Base.Bytes Base.Outcome Base.Prog Base.ProgSpec Base.BufLevel Mp4.Header Mp4.Box Mp4.San Mp4.SanB "
@@ -435,7 +435,7 @@ LEVEL_NOTE = ("MP4 half - modelled and proved: the sizes the code REQUESTS for b
               "(<= 256 + leaves tables of 256 entries: one top-level table, <= 255 first-level and <= leaves-1 second-level continuation tables for codes of "
               "at most 15 bits; this arithmetic about the third-party tabulation is NOT proved). SAMPLED, not proved: webpsan's real peak heap under a "
               "counting allocator stays below WEBP_HEAP_BOUND = (tables of one prefix-code group + the code-length code) * 256 * entry size + 2 MiB "
-              "(about 31 MB; measured worst about 4 MB) whatever the declared dimensions (up to 16384 x 16384), chunk sizes (up to 4 GiB, sparse) and number "
+              "(about 21 MB; measured worst about 4 MB) whatever the declared dimensions (up to 16384 x 16384), chunk sizes (up to 4 GiB, sparse) and number "
               "of prefix-code groups (up to 4096 in the corpus: groups must not be kept alive together); that the lossless validator does not materialise "
               "sub-images and keeps one group alive at a time is a property of the Rust code the pure Gallina validator (Vp8l.v) cannot exhibit. No axioms." % (HEAP_A, HEAP_B))
 TECHNIQUE = ("Coq: programme logic with a monitor (state machine over operations) + invariant on the ideal cursor + generic non-interference by "
@@ -453,7 +453,7 @@ _mp4 = dict(gen=gen, same=same, classify=classify, nontrivial=nontrivial, oracle
             known_class=known_class)
 ENTRY = 24                      # size_of::<ReadHuffmanTree<LE, _>>() (checked against the harness on every run: kind `sizes`)
 ALPHABETS = (256 + 24 + 2048, 256, 256, 256, 40)
-TABLES = sum(256 + a for a in ALPHABETS) + (256 + 19)
+TABLES = sum(ALPHABETS) + 19      # one 256-entry table per leaf (C10_webp_tables_bounded): five codes of a group + the code-length code
 WEBP_HEAP_BOUND = TABLES * 256 * ENTRY + 2 * 2**20
 _WREQ = ["From Coq Require Import List NArith Bool.", "From Coq.Strings Require Import Byte.",
          "From MS Require Import Base.Bytes Base.Outcome Base.Prog Base.ProgSpec Webp.Container Webp.Huffman Webp.ResourceProofs Props.C10w.",
@@ -465,18 +465,38 @@ THEOREMS = THEOREMS + [
   fleaves (ht_tree t) = length (symbols (index_from 0 cl))
   /\\ (fleaves (ht_tree t) <= length cl)%nat
   /\\ S (fnodes (ht_tree t)) = fleaves (ht_tree t)"""),
+    ("C10_webp_tables_bounded", """forall (cl : list N) (t : htree), new_vec cl = Ok t ->
+  total_tables (ht_tree t) = length (symbols (index_from 0 cl)) /\\ (total_tables (ht_tree t) <= length cl)%nat"""),
 ]
-REQUIRES_FOR = {"C10_webp_container_alloc_bounded": _WREQ, "C10_webp_tree_size_bounded": _WREQ}
+REQUIRES_FOR = {"C10_webp_container_alloc_bounded": _WREQ, "C10_webp_tree_size_bounded": _WREQ, "C10_webp_tables_bounded": _WREQ}
 NOTES = [n for n in NOTES if not n.startswith("WebP half pending")] + [
     "WebP half: `wmeter` lines are judged by the oracle only (peak heap <= WEBP_HEAP_BOUND = %d bytes, no read request above 4096 bytes)" % WEBP_HEAP_BOUND]
 
 
 def _is_w(line):
-    return line.startswith("wmeter ")
+    return line.startswith(("wmeter ", "tabmem "))
 
 
 def area_of(line):
-    return "webp" if _is_w(line) else "mp4f"
+    return "huff" if line.startswith("tabmem ") else ("webp" if _is_w(line) else "mp4f")
+
+
+def tabgen(run):
+    """code-length vectors (complete, over- and under-subscribed) over the alphabets of the format: the heap a compiled read
+    tree retains (implementation) against Huffman.total_tables (model of bitstream-io's tabulation)"""
+    rng = run.rng
+    quick = run.tier == "quick"
+    for a in (2, 19, 40, 256, 280, 2328):
+        for _ in range(12 if quick else 200):
+            k = min(a, rng.choice([1, 2, 3, 17, 120, a]))
+            syms = rng.sample(range(a), k)
+            ls = V.rand_lengths(rng, k, max(15 if rng.random() < .7 else 8, (k - 1).bit_length()), rng.random() < .5) if k <= 2 ** 15 else [1]
+            lens = [0] * a
+            for s_, l in zip(syms, ls):
+                lens[s_] = l
+            if rng.random() < .1 and k > 1:
+                lens[syms[0]] = max(1, lens[syms[0]] - 1)           # over-subscribed: rejected by both
+            yield "tabmem " + ",".join(map(str, lens)), "webp-tables-%d" % a
 
 
 def _wl(f, rd="lenient", allow=True):
@@ -545,9 +565,12 @@ def wgen(run):
 def gen(run):
     yield from _mp4["gen"](run)
     yield from wgen(run)
+    yield from tabgen(run)
 
 
 def same(line, impl, model):
+    if line.startswith("tabmem "):
+        return impl == model
     return True if _is_w(line) else _mp4["same"](line, impl, model)
 
 
@@ -578,6 +601,17 @@ def _woracle(run, pairs):
     run.use_area("mp4f")
     entry_ok = all(x.split("=")[1] == str(ENTRY) for x in sz.split() if "=" in x) and "entry_u16" in sz
     for line, impl in pairs:
+        if line.startswith("tabmem "):
+            n = len(line.split(" ", 1)[1].split(","))
+            if impl == "reject":
+                out.append((True, ""))
+            elif impl.startswith("tables="):
+                kv = dict(x.split("=") for x in impl.split())
+                ok = int(kv["tables"]) <= n and kv.get("rem") == "0"
+                out.append((ok, "a compiled tree over %d symbols retains %s: more than one 256-entry table per symbol" % (n, impl)))
+            else:
+                out.append((False, "no observation: %s" % impl[:80]))
+            continue
         if "|" not in impl:
             out.append((False, "no observation / panic / abort: %s" % impl[:100]))
             continue
